@@ -163,6 +163,14 @@ def duality(ctx, mech, label, f, xs, rng, rec_kind, rec_bases, cls, sample=None)
     if not isinstance(y, UTPM) or y.data.shape != ydir.shape or not np.allclose(y.data, ydir, rtol=1e-9, atol=1e-9 * (1 + np.max(np.abs(ydir)))):
         ctx.skip('replay-differs (C05 matter):' + label); return False
     ybar = rng.normal(size=y.data.shape)
+    sk = int(rng.integers(5))
+    if sk == 0 and ybar.size >= 2:
+        # a contrast: entries +-1, +-0.5 whose total is exactly 0.0 (an adjoint that sums to zero is not a zero adjoint)
+        f_ = np.resize(np.array([1.0, -1.0, 0.5, -0.5]), ybar.size)
+        f_[-1] -= f_.sum()
+        ybar = rng.permutation(f_).reshape(ybar.shape)
+    elif sk == 1:
+        ybar = np.zeros_like(ybar); ybar.reshape(-1)[int(rng.integers(ybar.size))] = 1.0 if ybar.size else 0       # a unit seed
     try:
         cg.pullback([UTPM(ybar.copy())])
     except Exception as e:
